@@ -12,7 +12,28 @@ import (
 	"verif/engine/sym"
 )
 
+// repoRoot: the tree under test. Registered checks always use /repo; VERIF_REPO_ROOT points the
+// machinery at a scratch copy (used only for measuring detection of seeded changes).
+var repoRoot = "/repo"
+
+func setupRepoRoot() {
+	r := os.Getenv("VERIF_REPO_ROOT")
+	if r == "" || r == "/repo" {
+		return
+	}
+	repoRoot = r
+	// a module directory whose replace directive points at the scratch copy
+	md := filepath.Join(r, ".verif_mod")
+	os.MkdirAll(md, 0o755)
+	gm, _ := os.ReadFile(filepath.Join(sym.ModDir, "go.mod"))
+	os.WriteFile(filepath.Join(md, "go.mod"), []byte(strings.ReplaceAll(string(gm), "=> /repo", "=> "+r)), 0o644)
+	gs, _ := os.ReadFile(filepath.Join(sym.ModDir, "go.sum"))
+	os.WriteFile(filepath.Join(md, "go.sum"), gs, 0o644)
+	sym.ModDir = md
+}
+
 func main() {
+	setupRepoRoot()
 	if len(os.Args) < 2 {
 		fmt.Println("usage: gosym run|check ...")
 		os.Exit(2)
@@ -48,7 +69,7 @@ func loadOverlay(harnessDir string, native bool) map[string][]byte {
 		}
 		base := filepath.Base(path)
 		isTest := strings.HasSuffix(base, "_test.go")
-		if isTest && !native {
+		if (isTest || strings.HasSuffix(base, "_native.go")) && !native {
 			return nil
 		}
 		rel, _ := filepath.Rel(harnessDir, filepath.Dir(path))
@@ -56,7 +77,7 @@ func loadOverlay(harnessDir string, native bool) map[string][]byte {
 			rel = ""
 		}
 		data, _ := os.ReadFile(path)
-		ov[filepath.Join("/repo", rel, base)] = data
+		ov[filepath.Join(repoRoot, rel, base)] = data
 		pkgDirs[rel] = true
 		return nil
 	})
@@ -73,7 +94,7 @@ func loadOverlay(harnessDir string, native bool) map[string][]byte {
 		if rel != "" {
 			name = filepath.Base(rel)
 		}
-		ov[filepath.Join("/repo", rel, "zz_verif_api.go")] = []byte(strings.ReplaceAll(string(tdata), "PKGNAME", name))
+		ov[filepath.Join(repoRoot, rel, "zz_verif_api.go")] = []byte(strings.ReplaceAll(string(tdata), "PKGNAME", name))
 	}
 	return ov
 }
